@@ -220,6 +220,8 @@ class RealOps:
         return z3.If(x >= 0, z3.ToInt(x), -z3.ToInt(-x))
 
     def i2f(self, x):
+        if isinstance(x, np.ndarray) and x.ndim == 0:
+            x = x[()]                      # an element that arrived boxed in a 0-d object array
         if isconc(x):
             return Fraction(int(x))
         return z3.ToReal(x)
